@@ -245,7 +245,7 @@ def check_C06(ctx):
             replay_samples(ctx, gp, 1)
     ctx.distinct = covered
     ctx.exhaustive = True
-    oneshot_cases(ctx)
+    oneshot_cases(ctx, maxshards=2 if not ctx.thorough else 3)
 
 
 def check_C07(ctx):
@@ -361,8 +361,54 @@ def replay_script(ctx):
             ctx.violation("trace rejected by Trace_Codec at line %s" % ((r["matched"] or 0) + 1), p, {"source": "trace"})
 
 
-def oneshot_cases(ctx):
-    pass
+def oneshot_cases(ctx, maxshards=None):
+    """MC_OneShot: every short argument list of encode()/decode() over the palette; the streaming fold lies inside the
+    contract (model invariant); every case replayed on the real functions side by side with the streaming API."""
+    n = maxshards or (3 if not ctx.thorough else 4)
+    cfg = "MC_OneShot_%d.cfg" % n
+    res = tlc_run("MC_OneShot", cfg, workers=6, timeout=3000, tag="MC_OneShot_%d_%s" % (n, ctx.prop))
+    log("[tlc] MC_OneShot/%s: %d generated, %d distinct, %.1fs" % (cfg, res["generated"], res["distinct"], res["wall"]))
+    if not res["ok"]:
+        raise ToolError("MC_OneShot violated %s on its own:\n%s" % (res["violated"], res["out"][-3000:]))
+    ctx.add_model("MC_OneShot/" + cfg, res)
+    cases = ctx.path("oneshot_cases.ndjson")
+    cnt = 0
+    with open(cases, "w") as out:
+        for line in res["out"].splitlines():
+            if line.startswith('<<"CASE", "'):
+                out.write(json.loads(line[len('<<"CASE", '):-2]) + "\n")
+                cnt += 1
+    rc, info, o = harness(["oneshot", "--cases", cases, "--outdir", ctx.dir, "--seed", ctx.seed])
+    log("[oneshot] %d cases, %d violations" % (info["cases"], len(info["violations"])))
+    ctx.traces += info["cases"] - len(info["violations"])
+    ctx.evaluations += info["cases"]
+    ctx.extra["oneshot_cases"] = info["cases"]
+    for v in info["violations"]:
+        ctx.violation(v["what"], v["replay"], {"source": "oneshot", "fn": v["fn"], "recovery_given": v["recovery_given"]})
+    with open(cases) as f:
+        lines = f.read().splitlines()
+    for i in (len(lines) // 3, 2 * len(lines) // 3):
+        ctx.samples.append(short(lines[i], 500))
+    return info
+
+
+def check_C10(ctx):
+    ctx.rule = ("every argument list of the one-shot encode()/decode() with at most 3 (thorough: 4) shards over the palette (counts incl. 0, 65536, MAX; "
+                "indexes 0,1,k-1,k,MAX; lengths 64,66,1,0) enumerated by TLC from OneShot.tla with the set of truthful errors; each case executed on the "
+                "real function and on the streaming API: return value in the allowed set, success iff the contract is empty, identical results. "
+                "distinct = distinct cases")
+    ctx.assumptions = ["argument lists are bounded by the palette and MaxShards", "NotEnoughShards is truthful when its counts add up to fewer than original_count"]
+    if ctx.replay:
+        c = json.load(open(ctx.replay))
+        tmp = ctx.path("replay_case.ndjson")
+        open(tmp, "w").write(json.dumps(c) + "\n")
+        rc, info, o = harness(["oneshot", "--cases", tmp, "--outdir", ctx.dir, "--seed", ctx.seed])
+        for v in info["violations"]:
+            ctx.violation(v["what"], ctx.replay, {"source": "oneshot", "fn": v["fn"], "recovery_given": v["recovery_given"]})
+        return
+    info = oneshot_cases(ctx)
+    ctx.distinct = info["cases"]
+    ctx.exhaustive = True
 
 
 def code_family(ctx, fam):
